@@ -83,10 +83,14 @@ def observe(case):
     return {"calls": calls}
 
 
-def gen_tree(rng, depth):
+def gen_tree(rng, depth, wide=False):
     if depth == 0 or rng.random() < 0.25:
+        if wide:    # leaves of the whole stated domain: chains reach magnitudes far from 1 (1e-20 .. 1e+30)
+            p = rng.choice([rng.randint(-9, 9), rng.randint(-10 ** 6, 10 ** 6)])
+            return [Fraction(p, rng.choice([1, rng.randint(1, 10 ** 4), 10 ** 4, 9999]))]
         return [Fraction(rng.randint(-9, 9), rng.randint(1, 6))]
-    return gen_tree(rng, depth - 1) + gen_tree(rng, depth - 1) + [rng.choice(["add", "sub", "mul", "div"])]
+    ops = ["add", "sub", "mul", "div"] + (["mul", "div", "idiv", "mod"] if wide else [])
+    return gen_tree(rng, depth - 1, wide) + gen_tree(rng, depth - 1, wide) + [rng.choice(ops)]
 
 
 def main(tier):
@@ -118,6 +122,18 @@ def main(tier):
                 cs.append(("pair", op, a, b))
     for _ in range(500 if tier == "quick" else 5000):
         cs.append(("tree", gen_tree(rng, rng.randint(2, 5))))
+    for _ in range(1500 if tier == "quick" else 20000):
+        cs.append(("tree", gen_tree(rng, rng.randint(2, 5), wide=True)))
+    # magnitudes far from 1 on either side: tiny and huge operands against ordinary ones
+    tiny = [Fraction(n, 10 ** k) for k in (9, 10, 11, 12, 15, 20, 40) for n in (1, -1, 3, 7)] + \
+           [Fraction(10 ** k + 1, 10 ** (2 * k)) for k in (6, 12)]
+    ordinary = [Fraction(7), Fraction(-3, 5), Fraction(1, 10 ** 4), Fraction(10 ** 6), Fraction(22, 7), Fraction(0), Fraction(1)]
+    for a in tiny:
+        for b in ordinary + tiny[:8]:
+            for op in OPS:
+                for x, y in ((a, b), (b, a)):
+                    if not (op == "mod" and y == 0):
+                        cs.append(("pair", op, x, y))
     common.import_repo()
     with common.Scratch(PID) as s:
         mc = tlc.model_check(s, "MC_Arith", cfg="MC_Arith_quick" if tier == "quick" else "MC_Arith", workers=16)
